@@ -4,8 +4,8 @@ cd /verif; mkdir -p evidence_thorough
 : > evidence_thorough/SUMMARY.txt
 for p in ${@:-C19 C09 C17 C13 C15 C11 C12 C10 C16 C18 C04 C05 C07 C14 C01 C02 C03 C06 C08}; do
   s=$(date +%s)
-  out=$(./check $p thorough 2>&1); rc=$?
-  echo "$p rc=$rc $(($(date +%s)-s))s $(echo "$out" | tail -1)" | tee -a evidence_thorough/SUMMARY.txt
+  out=$(./check $p thorough 2>&1); rc=$?; head=$(git -C /repo rev-parse --short HEAD)
+  echo "$p rc=$rc repo=$head $(($(date +%s)-s))s $(echo "$out" | tail -1)" | tee -a evidence_thorough/SUMMARY.txt
   echo "$out" | grep -E "^VIOLATION|signature|MACHINERY|KNOWN" | cut -c1-200 | head -10 >> evidence_thorough/SUMMARY.txt
   cp evidence/$p.json evidence_thorough/$p.json
   ./check $p quick > /dev/null 2>&1   # leave the quick evidence in place
